@@ -32,7 +32,7 @@ RULE = ("seeded generator over trunk space (1-3 variables, total dim 1-5, declar
         "deciding comparison of its kind was made (twin: derivatives and parameter gradients of both nets; forms: at "
         "least three input forms); distinct = (kind, branch type, output dim, K class, #functions class, trunk rank, "
         "normalisation, grouped flags).")
-REQUIRED_REACH = ["linear.forward", "linear.backward", "TrunkLinear.forward", "TrunkNet._reshape_multidimensional_output",
+REQUIRED_REACH = ["DeepONet._forward_branch", "FunctionSetCollection.create_function_batch", "linear.forward", "linear.backward", "TrunkLinear.forward", "TrunkNet._reshape_multidimensional_output",
                   "BranchNet._reshape_multidimensional_output", "BranchNet.fix_input", "DeepONet.forward",
                   "DeepONet.fix_branch_input", "FCTrunkNet.forward", "FCBranchNet.forward", "ConvBranchNet1D.forward",
                   "BranchNet._discretize_function_set", "FunctionSet.create_function_batch",
@@ -43,8 +43,10 @@ ASSUMPTIONS = [
     "compared quantity (observed <= 1e-13)",
     "trunk inputs of the fast path are exact copies along the first axis (documented precondition of "
     "trunk_input_copied=True) or 2-D",
-    "forms cases in float32; equal forms are judged with 1e-5, agreement with the monitor's own float64 evaluation of "
-    "the same float32 weights with 1e-4, both relative to max(1, |out|)",
+    "forms cases in float32; batch forms that hand over the same bits (tensor / Points) are judged with 1e-5; "
+    "forms in which the library evaluates the function itself (callable, FunctionSet), single functions evaluated alone "
+    "(other BLAS kernels, observed 2e-6) and agreement with the monitor's own float64 "
+    "evaluation of the same float32 weights with 1e-4, all relative to max(1, |out|)",
     "neuron c*K+k belongs to output component c (the documented reshape to (.., output_dim, neurons)); a grouping "
     "k*dim+c used consistently by trunk and branch would also be accepted and is counted",
     "the flattening of the discretised branch input (point-major, channel-minor) and of the convolution output is "
@@ -62,7 +64,7 @@ MODES = ["full", "theta_only", "x_only", "weights_only", "first_layer_frozen"]
 
 def gen_cases(seed, tier):
     rng = np.random.default_rng([seed, 9])
-    n_twin, n_forms = (170, 150) if tier == "quick" else (3000, 2500)
+    n_twin, n_forms = (300, 260) if tier == "quick" else (6000, 5000)
     cases = []
     for i in range(n_twin + n_forms):
         kind = "twin" if i < n_twin else "forms"
@@ -120,7 +122,9 @@ class _Ctx:
             self.violate(kind, "%s: max |difference| %.3g (allowed %.3g, scale %.3g, shape %s)"
                          % (what, dm, tol * scale, scale, tuple(got.shape)), **kw)
             return False
-        self.res["worst"] = max(self.res.get("worst", 0.0), dm / (tol * scale))
+        if dm / (tol * scale) > self.res.get("worst", 0.0):
+            self.res["worst"] = dm / (tol * scale)
+            self.res["worst_what"] = what[:160]
         return True
 
 
@@ -197,12 +201,12 @@ def _check_vs_own(ctx, what, out, ref, tol, **kw):
     return ctx.judge(what, got, blocks, tol, "not_inner_product", quantity="own_reference", **kw)
 
 
-def _einsum_subnets(ctx, net, pts, out, tol, **kw):
+def _einsum_subnets(ctx, model, pts, out, tol, **kw):
     """out[i,j,c] == sum_k branch[i,c,k] * trunk[(i,)j,c,k] from the sub-nets' own outputs."""
     with torch.no_grad():
-        t = net.trunk(pts)
+        t = model.trunk(pts)
     t = t if isinstance(t, torch.Tensor) else t.as_tensor
-    b = net.branch.current_out.detach()
+    b = model.branch.current_out.detach()
     ctx.count("trunk_output_rank_%d" % t.dim())
     dim = N.out_dim(ctx.s)
     try:
@@ -358,6 +362,10 @@ def _run_twin(ctx):
             full = _lib(ctx, "%s forward" % tag, lambda: (net.fix_branch_input(V), net(pts).as_tensor)[1], net=tag)
             if full is None:
                 continue
+            if tuple(full.shape) != (F, n, N.out_dim(s)):
+                ctx.violate("shape", "%s net: output shape %s for %d functions x %d locations x %d components"
+                            % (tag, tuple(full.shape), F, n, N.out_dim(s)), net=tag)
+                continue
             _einsum_subnets(ctx, net, pts, full, tol, net=tag)
             # sub-batch of functions and of locations
             Sf = np.sort(rng.choice(F, size=int(rng.integers(1, F + 1)), replace=False))
@@ -381,7 +389,7 @@ def _run_twin(ctx):
             pts3, _ = _trunk_points(c, rows2, F, c["rank"], False)
             rep = _lib(ctx, "%s forward with the other functions and locations replaced" % tag,
                        lambda: (net.fix_branch_input(V2), net(pts3).as_tensor)[1], net=tag)
-            if rep is not None:
+            if rep is not None and tuple(rep.shape) == tuple(full.shape):
                 ctx.judge("%s net: out[%d,%d] after replacing every other function and location" % (tag, i, j),
                           rep[i, j], full[i, j], tol, "batch_dependent", quantity="replaced", net=tag)
     res["nontrivial"] = decided >= 3
@@ -408,6 +416,9 @@ def _run_forms(ctx):
     F, n, ch = c["F"], c["n_loc"], s["fn_ch"]
     var = s["fn_in"]["var"]
     tol_eq, tol_ref = 1e-5, 1e-4
+    # forms in which the library evaluates the function itself may differ from the monitor's discretisation by one
+    # unit of float32 rounding (vectorised vs scalar sin/cos); the branch net amplifies that
+    same_bits = ("tensor3d", "points3d")
     forms_ok = 0
     ctx.mech["fast"] = c["fast"]
 
@@ -425,7 +436,14 @@ def _run_forms(ctx):
         forms = [("tensor3d", lambda: (net.fix_branch_input(V.clone()), fwd(c["rank"], F))[1]),
                  ("points3d", lambda: (net.fix_branch_input(Points(V.clone(), Space({"f": ch}))), fwd(c["rank"], F))[1]),
                  ("functionset_fix", lambda: (net.fix_branch_input(fset), fwd(c["rank"], F))[1]),
-                 ("functionset_forward", lambda: fwd(c["rank"], F, fset))]
+                 ("functionset_forward", lambda: fwd(c["rank"], F, fset)),
+                 # the path the DeepONet conditions use during training
+                 ("functionset_training", lambda: (net._forward_branch(fset, iteration_num=rnd), fwd(c["rank"], F))[1])]
+        if F >= 2:
+            m = int(rng.integers(1, F))
+            parts = [CustomFunctionSet(fsp, DataSampler({"k": k_t[:m].clone()}), _named_fn(["k", var], ch)),
+                     CustomFunctionSet(fsp, DataSampler({"k": k_t[m:].clone()}), _named_fn(["k", var], ch))]
+            forms.append(("functionset_sum", lambda: (net.fix_branch_input(parts[0] + parts[1]), fwd(c["rank"], F))[1]))
         if rnd == 2:
             forms = forms[2:] + forms[:1]
         idx = [int(i) for i in rng.permutation(len(forms))] if rnd else list(range(len(forms)))
@@ -450,7 +468,8 @@ def _run_forms(ctx):
             base = list(outs.values())[0]
         for name, o in outs.items():
             if o is not base:
-                ctx.judge("round %d: branch input as %s vs as tensor" % (rnd, name), o, base, tol_eq,
+                ctx.judge("round %d: branch input as %s vs as tensor" % (rnd, name), o, base,
+                          tol_eq if name in same_bits else tol_ref,
                           "input_form_dependent", quantity="forms", form=name)
         # single functions: callable / 2-D tensor / 2-D Points, each against row i of the batch result
         if base is not None and rnd < 2:
@@ -465,8 +484,11 @@ def _run_forms(ctx):
                     if o is None:
                         continue
                     ctx.count("form_" + name)
+                    if base.dim() != 3 or base.shape[0] != F:
+                        continue                                   # already reported as a wrong shape / reference mismatch
                     if ctx.judge("round %d: function %d alone given as %s vs row %d of the batch result" % (rnd, i, name, i),
-                                 o.as_tensor, base[i:i + 1], tol_eq, "input_form_dependent", quantity="forms", form=name):
+                                 o.as_tensor, base[i:i + 1], tol_ref,      # batch of one: other BLAS kernels
+                                 "input_form_dependent", quantity="forms", form=name):
                         forms_ok += 1
     res["nontrivial"] = forms_ok >= 3
     ctx.count("forms_agreeing_with_reference", forms_ok)
